@@ -2,10 +2,13 @@
    Proved here: the 794 keys regenerated from /repo are pairwise distinct, non-zero 64-bit words;
    hence replacing any one component key by another changes the hash; the full hash is a function of
    (piece hash, side, en-passant file, rights).
-   OPEN (tied by correspondence only, see evidence): the incrementally maintained piece hash of a moved
-   board equals the from-scratch hash (C04_incremental_statement). *)
+   Boards that compare equal hash equal (C04_eq_boards_eq_hash); every parsed board satisfies the placement
+   invariant and carries the from-scratch hash (C04_parse_consistent); make-move keeps both for ordinary
+   moves, promotions, castling and en passant under the local placement conditions a legal move has
+   (C04_apply_consistent).  OPEN: is_legal on a validated board implies those local conditions
+   (apply_legal_consistent_statement, decided per run). *)
 From Coq Require Import NArith List Bool.
-From Chess Require Import base.Bits base.Types gen.T_zobrist model.Board model.MoveGen model.Apply model.Fen proofs.ZobristFacts.
+From Chess Require Import base.Bits base.Types gen.T_zobrist base.BitBoard model.Board model.MoveGen model.Apply model.Fen proofs.ZobristFacts proofs.HashFacts.
 Local Open Scope N_scope.
 
 Theorem C04_keys_distinct_nonzero : NoDup all_keys /\ ~ In 0 all_keys /\ (forall k, In k all_keys -> wf64 k).
@@ -26,9 +29,29 @@ Theorem C04_hash_function_of_fields : forall a b,
 Proof. exact zobrist_eq_of_fields. Qed.
 Print Assumptions C04_hash_function_of_fields.
 
-(* the full statement that is NOT yet proved (kept visible): a board reached by a legal move from a board
-   whose piece hash is the from-scratch one keeps that property *)
-Definition scratch_piece_hash (b : board) : N :=
-  fold_left (fun z s => match raw_get b s with Some (c, p) => N.lxor z (zkey s p c) | None => z end) sq_list 0.
-Definition C04_incremental_statement : Prop :=
-  forall b m, b_zob b = scratch_piece_hash b -> is_legal b m = true -> b_zob (apply b m) = scratch_piece_hash (apply b m).
+
+Theorem C04_eq_boards_eq_hash : forall a b, consistent a -> consistent b -> board_eqb a b = true ->
+  b_zob a = b_zob b /\ zobrist a = zobrist b.
+Proof. exact eq_boards_eq_hash_strong. Qed.
+Print Assumptions C04_eq_boards_eq_hash.
+
+Theorem C04_parse_consistent : forall s b, parse_fen_t s = Ret (POk b) -> Part b /\ b_zob b = scratch_piece_hash b.
+Proof. exact parse_consistent. Qed.
+Print Assumptions C04_parse_consistent.
+
+Theorem C04_apply_consistent : forall b m pc, Part b -> b_zob b = scratch_piece_hash b ->
+  m_src m < 64 -> m_dst m < 64 ->
+  raw_get b (m_src m) = Some (b_turn b, pc) ->
+  (raw_get b (m_dst m) = None \/ exists cp, raw_get b (m_dst m) = Some (opp (b_turn b), cp)) ->
+  (is_castle_move pc m = true -> pc <> Knight -> pc <> Pawn ->
+     forall s, s < 64 -> mem (castle_rook_mv (b_turn b) m) s = true ->
+       s <> m_src m /\ s <> m_dst m /\ (raw_get b s = Some (b_turn b, Rook) \/ raw_get b s = None)) ->
+  (pc = Pawn -> m_promo m = None -> is_double_push (b_turn b) m = false -> enpassant_pos b = Some (m_dst m) ->
+     ep_victim_sq (b_turn b) m < 64 /\ ep_victim_sq (b_turn b) m <> m_src m /\ ep_victim_sq (b_turn b) m <> m_dst m /\
+     raw_get b (ep_victim_sq (b_turn b) m) = Some (opp (b_turn b), Pawn)) ->
+  Part (apply b m) /\ b_zob (apply b m) = scratch_piece_hash (apply b m).
+Proof. exact apply_consistent_gen. Qed.
+Print Assumptions C04_apply_consistent.
+
+(* what remains: legality on a validated board gives the local conditions above *)
+Definition C04_incremental_statement : Prop := apply_legal_consistent_statement.
